@@ -86,7 +86,7 @@ impl SubRule {
         // RuleType::Insertion     => {/* skip match input */},
 
         if self.rule_type == RuleType::Insertion {
-            return self.transform(&word, vec![], &mut None)
+            return self.transform(&word, vec![], &mut None).map(Self::remove_empty_syllables)
         } 
         
         let mut word = word;
@@ -151,7 +151,15 @@ impl SubRule {
                 break
             }
         }
-        Ok(word)
+        Ok(Self::remove_empty_syllables(word))
+    }
+
+    /// A rule must not leave a syllable without segments behind (e.g. `* > $` at a word edge, `$C > &` on a lone consonant)
+    fn remove_empty_syllables(mut word: Word) -> Word {
+        if word.syllables.iter().any(|s| s.segments.is_empty()) && word.syllables.iter().any(|s| !s.segments.is_empty()) {
+            word.syllables.retain(|s| !s.segments.is_empty());
+        }
+        word
     }
 
     fn match_before_env(&self, states: &[Item], word_rev: &Word, pos: &SegPos, ins_match_before: bool, is_context: bool) -> Result<bool, RuleRuntimeError> {
